@@ -78,6 +78,18 @@ func (s *session) hugeClass() string {
 	return ""
 }
 
+// declared returns the largest size a frame of the session declares, and the
+// class of that frame.
+func (s *session) declared() (int64, string) {
+	max, class := s.hs.Declared, s.hs.Class
+	for _, p := range s.parsedF {
+		if p.Declared > max {
+			max, class = p.Declared, p.Class
+		}
+	}
+	return max, class
+}
+
 func (s *session) stream() []byte {
 	var b []byte
 	for _, f := range s.Frames {
@@ -116,6 +128,7 @@ type world struct {
 
 	probeRand    *rand.Rand
 	floodDone    bool
+	allocCount   map[string]int
 	allocClass   map[string]bool // classes that produced an allocation violation in this world
 	crashedClass map[string]int
 	hugeSeen     map[string]bool // classes whose >=512 MiB declaration already produced an alloc violation here
@@ -685,6 +698,7 @@ func (w *world) report(s *session, o outcome) {
 		}
 		w.run.Count("alloc_violations", 1)
 		w.allocClass[class] = true
+		w.allocCount[class]++
 		if hc := s.hugeClass(); hc != "" {
 			w.hugeSeen[hc] = true
 		}
@@ -998,14 +1012,25 @@ func (w *world) floodCheck(r *rand.Rand) error {
 			}
 			continue
 		}
+		// A leaked slot is permanent: an honest newcomer counts as refused only if
+		// several fresh peers in a row are hung up on.
 		refused := []int{}
 		for t := 0; t < 2; t++ {
-			adm, ok := w.probeAdmission(t, r)
-			if !ok {
-				w.run.Inconclusive(fmt.Sprintf("%s flood %s: admission probe got neither an answer nor a hang-up within the watchdog", w.name, class))
-				continue
+			admitted := false
+			for attempt := 0; attempt < 3 && !admitted; attempt++ {
+				adm, ok := w.probeAdmission(t, r)
+				if !ok {
+					w.run.Inconclusive(fmt.Sprintf("%s flood %s: admission probe got neither an answer nor a hang-up within the watchdog", w.name, class))
+					admitted = true
+					break
+				}
+				admitted = adm
+				if !adm {
+					w.run.Count("admission_probe_refusals", 1)
+					w.waitQuiet(10 * time.Second)
+				}
 			}
-			if !adm {
+			if !admitted {
 				refused = append(refused, t)
 			}
 		}
@@ -1080,6 +1105,12 @@ func (w *world) runAll(r *rand.Rand, n int, replayIdx int) {
 			w.run.Count("sessions_skipped_known_crash_class", 1)
 			continue
 		}
+		if d, dc := s.declared(); d >= 16<<20 && w.allocCount[dc] >= 3 {
+			// and for >=16 MiB declarations once the class has produced three
+			// allocation violations in this world
+			w.run.Count("sessions_skipped_known_large_alloc_class", 1)
+			continue
+		}
 		if hc := s.hugeClass(); hc != "" && w.hugeSeen[hc] {
 			// same idea for >=512 MiB declarations: against code that honours them
 			// every one commits and clears that much memory in the child
@@ -1141,7 +1172,16 @@ func (w *world) runAll(r *rand.Rand, n int, replayIdx int) {
 			// only if the torrent is at capacity, and only the canary is connected.
 			w.run.Count("valid_handshakes_refused", 1)
 			w.waitQuiet(30 * time.Second)
-			if adm, ok := w.probeAdmission(s.Target, w.probeRand); ok && !adm {
+			refusedAgain := 0
+			for attempt := 0; attempt < 3; attempt++ {
+				if adm, ok := w.probeAdmission(s.Target, w.probeRand); ok && !adm {
+					refusedAgain++
+					w.waitQuiet(10 * time.Second)
+				} else {
+					break
+				}
+			}
+			if refusedAgain == 3 {
 				// find the class that leaks connection slots (fresh children), have it
 				// suppressed for the rest of this world, and go on
 				before := w.run.Counter("flood_leak_classes")
@@ -1224,13 +1264,14 @@ func TestC14(t *testing.T) {
 	defer run.Finish()
 	run.Assume("the child process is the real kraken scheduler/conn/dispatch/storage code built from /repo; only the metainfo client and the tracker announce client are stand-ins")
 	run.Assume("allocation is judged through runtime.MemStats.TotalAlloc deltas reported by the child; bound 8 x (blob + 32 KiB) per frame in the session + 256 x bytes actually sent; an excess in a session that declares no large size must reproduce on an immediate replay")
+	run.Assume(">=16 MiB declarations of a class that produced three allocation violations in a world are likewise not re-sent to it")
 	run.Assume(">=512 MiB declarations of a class that already produced an allocation violation in a world are not re-sent to it (each one commits and clears that much memory in an unpatched child)")
 	run.Assume("classes that already crashed a world's child are not re-sent to it (execution-time suppression, counted); on a tree without crashes nothing is suppressed")
 
 	dir := ev.TempDir(t, "c14-")
 	bin := buildChild(t, dir)
 
-	perWorld := run.N(376, 12000)
+	perWorld := run.N(376, 7500)
 	replayWorld, replayIdx := "", -1
 	if rc := run.ReplayCase(); rc != "" {
 		parts := strings.Split(rc, "|")
@@ -1255,7 +1296,7 @@ func TestC14(t *testing.T) {
 				w := &world{
 					name: name, role: role, limiter: limiter, run: run, bin: bin,
 					dir:          filepath.Join(dir, name),
-					crashedClass: map[string]int{}, hugeSeen: map[string]bool{}, allocClass: map[string]bool{}, probeRand: run.Rand("probe/" + name),
+					crashedClass: map[string]int{}, hugeSeen: map[string]bool{}, allocClass: map[string]bool{}, allocCount: map[string]int{}, probeRand: run.Rand("probe/" + name),
 				}
 				_ = os.MkdirAll(w.dir, 0o755)
 				maxLen := 0
